@@ -310,6 +310,14 @@ class Functor(pg_object.Object, utils.Functor):
         self._specified_args.add(str(path))
     return updates
 
+  def _set_item_without_permission_check(
+      self, key: str, value: Any) -> Optional[base.FieldUpdate]:
+    """Binds an argument through a rebind of an ancestor (deep key path)."""
+    update = super()._set_item_without_permission_check(key, value)
+    if pg_typing.MISSING_VALUE != value:
+      self._specified_args.add(key)
+    return update
+
   def __setattr__(self, name: str, value: Any) -> None:
     """Binds an argument by attribute assignment."""
     super().__setattr__(name, value)
